@@ -211,7 +211,10 @@ func reflectPoints(n dst.Node) []decPoint {
 
 // oracleSources: the hand corpus plus n files sampled from $GOROOT/src.
 func oracleSources(c *Ctx, n int, maxBytes int64) []string {
-	return corrSources(c, n, maxBytes)
+	// the hand corpus of the correspondences, the attachment corpus (comments dangling before closing
+	// delimiters, after trailing comments, around case clauses ...) and a $GOROOT/src sample
+	srcs := corrSources(c, n, maxBytes)
+	return append(append([]string{}, linkExtra...), srcs...)
 }
 
 func clip(s string, n int) string {
